@@ -37,4 +37,21 @@ def statusQuiescent (d : EDS) (nodes : List Node) (pods : List PodView) : Bool :
   d.status.desired == n && d.status.current == k && d.status.ready == k && d.status.available == k &&
   d.status.upToDate == k && d.status.canary.isNone
 
+/-- The cooperative situation of the "update" phase of a rollout, read off the counters of one sync:
+every targeted node has a pod, every pod is available, nothing is stuck or terminating, and `o ≥ 1`
+of them are outdated.  (C02: in this situation a sync that is neither paused nor frozen must make
+progress, i.e. delete at least one outdated pod, as long as maxUnavailable resolves to ≥ 1.) -/
+def coopUpdate (c : Counts) : Bool :=
+  c.toCreate.isEmpty && c.toDeleteUnavail.isEmpty && c.stuck == 0 && c.terminating == 0 &&
+  c.oldUnavailable == 0 && c.allPods == c.desired && c.available == c.created &&
+  c.created + c.oldAvailable == c.allPods && c.oldAvailable == c.toDeleteAvail.length &&
+  !c.toDeleteAvail.isEmpty
+
+/-- `spec.strategy.rollingUpdate.maxUnavailable` asks for a positive budget (the API documents
+"This cannot be 0": a positive number or a positive percentage). -/
+def positiveBudget (x : Option IntOrStr) : Bool :=
+  match x with
+  | some v => (v.kind == "int" || v.kind == "pct") && decide (1 ≤ v.val)
+  | none => false
+
 end Eds.Spec.C02
